@@ -636,3 +636,62 @@ func checkMemoIdentity(p *core.Prog, r *core.Result) {
 	}
 	r.Floor("R7.12", n, 3, "memo accesses of the encoder")
 }
+
+
+// checkDecodedFromPayload implements R7.13: every value the decoder pushes is built from the payload of the opcode
+// being decoded, taken from the operand stack or the memo, or produced by the host unpickler - never taken from
+// other decoder-wide state (an interning table, a cache of boxed values): such state is shared by opcodes of
+// different types, so a value can come back as what another opcode produced for equal bytes.
+func checkDecodedFromPayload(p *core.Prog, r *core.Result) {
+	decode := p.Func("pickle", "Decoder", "decode")
+	push := p.Func("pickle", "Decoder", "push")
+	if decode == nil || push == nil {
+		r.Unk("R7.13", "anchor:pickle.Decoder.decode/push", "-", "not found")
+		return
+	}
+	allowed := map[string]bool{"stack": true, "memo": true, "r": true, "unpickler": true}
+	// interprocedural backward slice: through the returns of helpers of the package
+	var offending func(v ssa.Value, depth int, seen map[ssa.Value]bool) string
+	offending = func(v ssa.Value, depth int, seen map[ssa.Value]bool) string {
+		for x := range core.BackwardSlice(v, core.SliceOpts{Stores: true, ThroughCall: func(*ssa.Call) bool { return true }}) {
+			if seen[x] {
+				continue
+			}
+			seen[x] = true
+			if fa, ok := x.(*ssa.FieldAddr); ok {
+				if owner, name := core.FieldOf(fa); owner != nil && owner.Obj().Name() == "Decoder" && owner.Obj().Pkg() != nil && owner.Obj().Pkg().Path() == pkgPickle && !allowed[name] {
+					// scratch byte buffers are payload staging, not values
+					if at, isArr := fa.Type().Underlying().(*types.Pointer).Elem().Underlying().(*types.Array); isArr {
+						if b, isB := at.Elem().Underlying().(*types.Basic); isB && (b.Kind() == types.Byte || b.Kind() == types.Uint8) {
+							continue
+						}
+					}
+					return name
+				}
+			}
+			if c, ok := x.(*ssa.Call); ok && depth < 3 {
+				if h := core.Callee(c); h != nil && h.Blocks != nil && h.Pkg != nil && h.Pkg.Pkg.Path() == pkgPickle && h != decode {
+					for _, ret := range core.ReturnsOf(h) {
+						for _, rv := range core.RetVals(ret) {
+							if name := offending(rv, depth+1, seen); name != "" {
+								return name
+							}
+						}
+					}
+				}
+			}
+		}
+		return ""
+	}
+	n := 0
+	for _, c := range core.CallsTo(decode, push) {
+		n++
+		construct := fmt.Sprintf("pickle.(*Decoder).decode#push-source-%d", n)
+		if name := offending(c.Common().Args[1], 0, map[ssa.Value]bool{}); name != "" {
+			r.Bad("R7.13", construct, p.InstrPos(c.(ssa.Instruction)), "the pushed value can come from the decoder-wide field %q rather than from this opcode's payload, the stack or the memo: state shared between opcodes of different types (e.g. a table of interned literals keyed by their bytes) hands a string back where a bytes value was encoded, or the reverse", name)
+		} else {
+			r.OK("R7.13", construct, p.InstrPos(c.(ssa.Instruction)), "built from this opcode's payload, the stack, the memo or the unpickler")
+		}
+	}
+	r.Floor("R7.13", n, 10, "push sites in decode")
+}
